@@ -72,6 +72,38 @@ Definition actions_ok {X} (n : nat) (actions : dict (list X)) : Prop := n_action
 Definition wf_vstate {state} (n : nat) (k : okind) (agents : list nat) (st : gvstate state) : Prop :=
   length (vstates st) = n /\ wf_mem n k agents (vmem st).
 Definition seed_of (seed : option Z) (i : nat) : option Z := option_map (fun z => (z + Z.of_nat i)%Z) seed.
+(* the code's assert len(seed) == num_envs (always true for None / an int) *)
+Definition seed_ok (n : nat) (sd : seedspec) : Prop := length (expand_seed n sd) = n.
+(* the arguments worker i receives *)
+Definition rarg_at (n : nat) (sd : seedspec) (opt : option Z) (i : nat) : rarg := nth i (reset_args n sd opt) no_rarg.
+
+Lemma seed_ok_none n : seed_ok n SNone.
+Proof. apply repeat_length. Qed.
+Lemma seed_ok_int n z : seed_ok n (SInt z).
+Proof. unfold seed_ok, expand_seed. rewrite map_length. apply seq_length. Qed.
+Lemma seed_ok_list l : seed_ok (length l) (SList l).
+Proof. unfold seed_ok, expand_seed. apply map_length. Qed.
+
+(* reset(seed=z): worker i gets seed z + i; reset(): every worker gets None; a list: its i-th entry *)
+Lemma rarg_at_int n z opt i : i < n -> rarg_at n (SInt z) opt i = (Some (z + Z.of_nat i)%Z, opt).
+Proof.
+  intros Hi. unfold rarg_at, reset_args, expand_seed. rewrite map_map.
+  apply nth_error_nth. rewrite nth_error_map.
+  rewrite (nth_error_nth' (seq 0 n) 0) by (rewrite seq_length; exact Hi).
+  rewrite seq_nth by exact Hi. reflexivity.
+Qed.
+Lemma rarg_at_none n opt i : i < n -> rarg_at n SNone opt i = (None, opt).
+Proof.
+  intros Hi. unfold rarg_at, reset_args, expand_seed.
+  apply nth_error_nth. rewrite nth_error_map.
+  rewrite (nth_error_nth' (repeat (@None Z) n) None) by (rewrite repeat_length; exact Hi).
+  destruct (nth_in_or_default i (repeat (@None Z) n) None) as [H|H]; [apply repeat_spec in H|]; rewrite H; reflexivity.
+Qed.
+Lemma rarg_at_list l opt i z : nth_error l i = Some z -> rarg_at (length l) (SList l) opt i = (Some z, opt).
+Proof.
+  intros H. unfold rarg_at, reset_args, expand_seed. rewrite map_map.
+  apply nth_error_nth. rewrite nth_error_map, H. reflexivity.
+Qed.
 
 Lemma gather_nth {X} agents (sel : trans -> dict X) d outs a i w :
   In a agents -> nth_error outs i = Some w ->
@@ -103,7 +135,7 @@ Qed.
 Section ParentProofs.
 Context {env state : Type}.
 Variable wstep : env -> list nat -> state -> list Z -> state * trans.
-Variable wreset : env -> list nat -> state -> option Z -> state * (dict obs_t * dict info_t).
+Variable wreset : env -> list nat -> state -> rarg -> state * (dict obs_t * dict info_t).
 Variable ekind : env -> okind.
 Variable s_init : state.
 (* what the parent relies on: a worker writes an observation for every agent, of the declared sizes,
@@ -204,63 +236,63 @@ Proof.
   - apply gather_nth; auto.
 Qed.
 
-Lemma g_workers_reset_spec agents k n seed : forall Es i0 ss m rs ri mf,
-  Forall (fun E => ekind E = k) Es -> length ss = length Es ->
+Lemma g_workers_reset_spec agents k n : forall Es i0 ss ras m rs ri mf,
+  Forall (fun E => ekind E = k) Es -> length ss = length Es -> length ras = length Es ->
   i0 + length Es <= n -> wf_mem n k agents m ->
-  g_workers_reset wreset ekind agents i0 Es ss seed m = (rs, ri, mf) ->
+  g_workers_reset wreset ekind agents i0 Es ss ras m = (rs, ri, mf) ->
   wf_mem n k agents mf /\ length rs = length Es /\ length ri = length Es /\
-  (forall j E s, nth_error Es j = Some E -> nth_error ss j = Some s ->
-     nth_error rs j = Some (fst (wreset E agents s (seed_of seed (i0 + j)))) /\
-     nth_error ri j = Some (snd (snd (wreset E agents s (seed_of seed (i0 + j)))))) /\
+  (forall j E s ra, nth_error Es j = Some E -> nth_error ss j = Some s -> nth_error ras j = Some ra ->
+     nth_error rs j = Some (fst (wreset E agents s ra)) /\
+     nth_error ri j = Some (snd (snd (wreset E agents s ra)))) /\
   row_spec n k agents m mf i0 (length Es)
-    (fun j => match nth_error Es j, nth_error ss j with
-              | Some E, Some s => Some (fst (snd (wreset E agents s (seed_of seed (i0 + j)))))
-              | _, _ => None end).
+    (fun j => match nth_error Es j, nth_error ss j, nth_error ras j with
+              | Some E, Some s, Some ra => Some (fst (snd (wreset E agents s ra)))
+              | _, _, _ => None end).
 Proof.
-  induction Es as [|E Es IH]; intros i0 ss m rs ri mf HK Ls Hn Hm Hw.
+  induction Es as [|E Es IH]; intros i0 ss ras m rs ri mf HK Ls La Hn Hm Hw.
   - destruct ss; [|discriminate]. cbn in Hw. injection Hw as <- <- <-.
     split; [auto|]. split; [auto|]. split; [auto|]. split.
-    + intros j E s H. destruct j; discriminate.
+    + intros j E s ra H. destruct j; discriminate.
     + intros a i Ha Hi. cbn [length]. replace (i0 + 0) with i0 by lia.
       destruct (Nat.leb_spec i0 i), (Nat.ltb_spec i i0); cbn; auto; lia.
-  - destruct ss as [|s ss]; [discriminate|].
-    cbn [g_workers_reset] in Hw. fold (seed_of seed i0) in Hw.
-    destruct (wreset E agents s (seed_of seed i0)) as [s' [o inf]] eqn:Ew.
-    destruct (g_workers_reset wreset ekind agents (S i0) Es ss seed (write_shm i0 (ekind E) o m)) as [[rs' ri'] mf'] eqn:Er.
+  - destruct ss as [|s ss]; [discriminate|]. destruct ras as [|ra0 ras]; [discriminate|].
+    cbn [g_workers_reset] in Hw.
+    destruct (wreset E agents s ra0) as [s' [o inf]] eqn:Ew.
+    destruct (g_workers_reset wreset ekind agents (S i0) Es ss ras (write_shm i0 (ekind E) o m)) as [[rs' ri'] mf'] eqn:Er.
     injection Hw as <- <- <-.
     inversion HK as [|? ? HkE HK']; subst.
     assert (Hout : wf_obs (ekind E) agents o).
-    { pose proof (R_obs E agents s (seed_of seed i0)) as H. rewrite Ew in H. exact H. }
+    { pose proof (R_obs E agents s ra0) as H. rewrite Ew in H. exact H. }
     assert (Hm' : wf_mem n (ekind E) agents (write_shm i0 (ekind E) o m)).
     { apply write_shm_wf; auto. cbn in Hn. lia. }
     cbn [length] in *.
-    destruct (IH (S i0) ss _ rs' ri' mf' HK' ltac:(lia) ltac:(lia) Hm' Er)
+    destruct (IH (S i0) ss ras _ rs' ri' mf' HK' ltac:(lia) ltac:(lia) ltac:(lia) Hm' Er)
       as (Wf & L1 & L2 & Hnth & Hrows).
     split; [auto|]. split; [lia|]. split; [lia|]. split.
-    + intros j E0 s0 H H0. destruct j as [|j]; cbn [nth_error] in *.
-      * injection H as <-. injection H0 as <-. rewrite Nat.add_0_r, Ew. auto.
-      * replace (i0 + S j) with (S i0 + j) by lia. apply (Hnth j E0 s0); auto.
+    + intros j E0 s0 ra H H0 H1. destruct j as [|j]; cbn [nth_error] in *.
+      * injection H as <-. injection H0 as <-. injection H1 as <-. rewrite Ew. auto.
+      * apply (Hnth j E0 s0 ra); auto.
     + intros a i Ha Hi.
       rewrite (Hrows a i Ha Hi).
       rewrite (shm_write_read_lemma i0 i n (ekind E) agents o m a); auto; try lia.
       destruct (Nat.leb_spec (S i0) i); destruct (Nat.ltb_spec i (S i0 + length Es)); cbn [andb].
       * destruct (Nat.leb_spec i0 i); [|lia]. destruct (Nat.ltb_spec i (i0 + S (length Es))); [|lia]. cbn [andb].
-        replace (i - i0) with (S (i - S i0)) by lia. cbn [nth_error].
-        replace (i0 + S (i - S i0)) with (S i0 + (i - S i0)) by lia. reflexivity.
+        replace (i - i0) with (S (i - S i0)) by lia. reflexivity.
       * destruct (Nat.ltb_spec i (i0 + S (length Es))); [lia|]. rewrite andb_false_r.
         destruct (Nat.eqb_spec i i0); [lia|]. reflexivity.
       * destruct (Nat.eqb_spec i i0) as [->|Hne].
         -- destruct (Nat.leb_spec i0 i0); [|lia]. destruct (Nat.ltb_spec i0 (i0 + S (length Es))); [|lia].
-           cbn [andb]. rewrite Nat.sub_diag. cbn [nth_error]. rewrite Nat.add_0_r, Ew. reflexivity.
+           cbn [andb]. rewrite Nat.sub_diag. cbn [nth_error]. rewrite Ew. reflexivity.
         -- destruct (Nat.leb_spec i0 i); [lia|]. reflexivity.
       * lia.
 Qed.
 
-Theorem g_vec_reset_refines k agents Es st seed i E s :
+Theorem g_vec_reset_refines k agents Es st sd opt i E s :
   NoDup agents -> Forall (fun E => ekind E = k) Es -> wf_vstate (length Es) k agents st ->
+  seed_ok (length Es) sd ->
   nth_error Es i = Some E -> nth_error (vstates st) i = Some s ->
-  let r := g_vec_reset wreset ekind k agents Es st seed in
-  let w := wreset E agents s (seed_of seed i) in
+  let r := g_vec_reset wreset ekind k agents Es st sd opt in
+  let w := wreset E agents s (rarg_at (length Es) sd opt i) in
   wf_vstate (length Es) k agents (fst r) /\
   nth_error (vstates (fst r)) i = Some (fst w) /\
   forall a, In a agents ->
@@ -268,29 +300,34 @@ Theorem g_vec_reset_refines k agents Es st seed i E s :
     (forall key, info_at (snd (snd r)) a key i = info_in (snd (snd w)) a key) /\
     mask_at (snd (snd r)) a i = has_agent (snd (snd w)) a.
 Proof.
-  intros Hnd HK [Ls Hm] HE Hs. cbn zeta. unfold g_vec_reset.
-  destruct (g_workers_reset wreset ekind agents 0 Es (vstates st) seed (vmem st)) as [[rs ri] mf] eqn:Ew.
-  destruct (g_workers_reset_spec agents k (length Es) seed Es 0 _ _ rs ri mf HK Ls (le_n _) Hm Ew)
+  intros Hnd HK [Ls Hm] Hsd HE Hs. cbn zeta. unfold g_vec_reset.
+  assert (Lr : length (reset_args (length Es) sd opt) = length Es).
+  { unfold reset_args. rewrite map_length. exact Hsd. }
+  destruct (g_workers_reset wreset ekind agents 0 Es (vstates st) (reset_args (length Es) sd opt) (vmem st))
+    as [[rs ri] mf] eqn:Ew.
+  destruct (g_workers_reset_spec agents k (length Es) Es 0 _ _ _ rs ri mf HK Ls Lr (le_n _) Hm Ew)
     as (Wf & L1 & L2 & Hnth & Hrows).
   assert (Hi : i < length Es) by (apply nth_error_Some; congruence).
-  destruct (Hnth i E s HE Hs) as [H1 H2]. cbn [plus] in H1, H2.
+  assert (Hra : nth_error (reset_args (length Es) sd opt) i = Some (rarg_at (length Es) sd opt i)).
+  { unfold rarg_at. apply nth_error_nth'. lia. }
+  destruct (Hnth i E s _ HE Hs Hra) as [H1 H2].
   cbn [fst snd vstates vmem]. split; [split; auto|]. split; [exact H1|].
   assert (Hwf : Forall info_wf ri).
   { apply Forall_forall. intros x Hin. apply In_nth_error in Hin as [j Hj].
     assert (Hjl : j < length Es) by (rewrite <- L2; apply nth_error_Some; congruence).
     destruct (nth_error Es j) as [Ej|] eqn:E1; [|apply nth_error_None in E1; lia].
     destruct (nth_error (vstates st) j) as [sj|] eqn:E2; [|apply nth_error_None in E2; lia].
-    destruct (Hnth j Ej sj E1 E2) as [_ Hq]. rewrite Hj in Hq. injection Hq as ->.
+    destruct (nth_error (reset_args (length Es) sd opt) j) as [rj|] eqn:E3; [|apply nth_error_None in E3; lia].
+    destruct (Hnth j Ej sj rj E1 E2 E3) as [_ Hq]. rewrite Hj in Hq. injection Hq as ->.
     apply R_info; auto. }
   assert (Hlen : length ri <= length Es) by lia.
   intros a Ha. split; [|split].
   - pose proof (Hrows a i Ha Hi) as Hr. unfold row_of in Hr. rewrite Hr.
     destruct (Nat.leb_spec 0 i); [|lia]. destruct (Nat.ltb_spec i (0 + length Es)); [|lia]. cbn [andb].
-    rewrite Nat.sub_0_r, HE, Hs. reflexivity.
+    rewrite Nat.sub_0_r, HE, Hs, Hra. reflexivity.
   - intros key. apply (gather_info_spec_lemma (length Es) ri a key i _ Hlen Hwf H2).
   - apply (gather_info_spec_lemma (length Es) ri a 0 i _ Hlen Hwf H2).
 Qed.
-
 
 Lemma g_vec_init_wf k agents (Es : list env) : wf_vstate (length Es) k agents (g_vec_init s_init k agents Es).
 Proof.
